@@ -163,6 +163,17 @@ def run(prop, tier, replay=None):
         acc += extra["flag_scenarios_accepted"]
         total += extra["flag_scenarios"]
 
+    if prop in ("C10", "C04") and not replay:
+        # several concurrent senders on a multi-threaded runtime
+        import jobmtcheck
+        mviol, mextra, mstats = jobmtcheck.run(prop, tier, rng)
+        violations += mviol
+        extra.update(mextra)
+        for k in ("distinct", "generated"):
+            stats[k] += mstats[k]
+        acc += mextra["concurrent_sender_scenarios_accepted"]
+        total += mextra["concurrent_sender_scenarios"]
+
     samples = [dict(script=by_id.get(json.loads(sc[0])["a"].split("#")[0]), trace=sample_of(sc))
                for sc in scen[len(scen) // 3: len(scen) // 3 + 2]]
     coverage = dict(
